@@ -478,7 +478,9 @@ func vh_C16_calls(a []int) {
 	}
 	_, e6 := SubstituteParameters(c.layout, map[string]string{"P": "v"})
 	_, e7 := UnpackRule([]string{"ALLOW", "*"})
-	vObserve("calls", e1 == nil, e2 == nil, e3 == nil, e4 == nil, e5 == nil, e6 == nil, e7 == nil)
+	env := &Envelope{}
+	e8 := env.SetPayload(Link{Type: "link", Name: "n", ByProducts: map[string]interface{}{"stdout": vPick("stdout", "plain", "with\nnewline")}})
+	vObserve("calls", e1 == nil, e2 == nil, e3 == nil, e4 == nil, e5 == nil, e6 == nil, e7 == nil, e8 == nil)
 	vReach("C16.end")
 }
 
